@@ -455,7 +455,7 @@ def run_local_pair(params, prefix):
     root = sc.sub()
     name = 'data/ab/cd/chunk-1'
     payloads = [bytes([65]) * params['len'], (bytes([65]) if params['same'] else bytes([66])) * params['len']]
-    old = b'OLD' if params['old'] else None
+    old = b'OLD-content-longer-than-new-' * 2 if params['old'] else None
     if old is not None:
         L.Local(str(root)).upload(name, old)
     allowed = {None if old is None else old, payloads[0], payloads[1]}
@@ -515,7 +515,18 @@ def run_local_pair(params, prefix):
             if 'w' in mode:
                 step('open-w')
                 return KW(super().open(mode, *a, **k))
-            return super().open(mode, *a, **k)
+            step('open-r')
+            return KR(super().open(mode, *a, **k))
+
+        def read_bytes(self):
+            step('open-r')
+            with BasePath.open(self, 'rb') as f:
+                step('read')
+                return f.read()
+
+        def stat(self, *a, **k):
+            step('stat')
+            return super().stat(*a, **k)
 
         def replace(self, target):
             step('rename')
@@ -525,16 +536,49 @@ def run_local_pair(params, prefix):
             step('unlink')
             return super().unlink(*a, **k)
 
+    class KR:
+        def __init__(self, f):
+            self.f = f
+
+        def read(self, *a):
+            step('read')
+            return self.f.read(*a)
+
+        def fileno(self):
+            return self.f.fileno()
+
+        def __enter__(self):
+            return self
+
+        def __exit__(self, *a):
+            self.f.close()
+
+        def __getattr__(self, k):
+            return getattr(self.f, k)
+
+    class KOs:
+        path = os.path
+
+        def __getattr__(self, k):
+            return getattr(os, k)
+
+        def fstat(self, fd):
+            step('fstat')
+            return os.fstat(fd)
+
     def ktemp(*a, **k):
         step('mktemp')
         return tempfile.NamedTemporaryFile(*a, **k)
 
     has_ntf = hasattr(L, 'NamedTemporaryFile')   # the adapter may create its temporaries differently
     saved = (L.Path, getattr(L, 'NamedTemporaryFile', None))
+    saved_os = L.os
+    L.os = KOs()
     L.Path = KPath
     if has_ntf:
         L.NamedTemporaryFile = ktemp
     excs = {}
+    reads = {}
     try:
         be = L.Local(str(root))
 
@@ -543,8 +587,20 @@ def run_local_pair(params, prefix):
                 try:
                     if params['ops'][i] == 'upload':
                         be.upload(name, payloads[i])
-                    else:
+                    elif params['ops'][i] == 'upload_stream':
                         be.upload_stream(name, io.BytesIO(payloads[i]), len(payloads[i]), params['chunk'])
+                    elif params['ops'][i] == 'download':
+                        reads[i] = be.download(name)
+                    else:
+                        dst = io.BytesIO(b'stale' * 20)
+                        dst.seek(0)
+                        be.download_stream(name, dst, params['chunk'])
+                        reads[i] = dst.getvalue()
+                except FileNotFoundError as e:
+                    if params['ops'][i].startswith('download') and old is None:
+                        reads[i] = None      # the object did not exist yet: a plain map would say the same
+                    else:
+                        excs[i] = e
                 except Exception as e:
                     excs[i] = e
             return run
@@ -558,6 +614,7 @@ def run_local_pair(params, prefix):
         x = dsched.run_one(lambda loop, s_: go(), prefix, horizon=3000)
     finally:
         L.Path = saved[0]
+        L.os = saved_os
         if has_ntf:
             L.NamedTemporaryFile = saved[1]
     observe('end')
@@ -578,10 +635,17 @@ def run_local_pair(params, prefix):
         return out
     if bad:
         out['viol'].append((dict(sig0, what='torn-object-visible'), {'params': params, 'when': bad[0][0], 'visible_length': bad[0][1]}))
+    writers = [i for i in (0, 1) if params['ops'][i].startswith('upload')]
+    for i, got in reads.items():
+        ok_values = {old} | {payloads[j] for j in writers}
+        if got not in ok_values:
+            out['viol'].append((dict(sig0, what='reader-saw-neither-old-nor-new-object', reader=params['ops'][i]),
+                                {'params': params, 'got_length': None if got is None else len(got),
+                                 'old_length': None if old is None else len(old)}))
     if excs:
         out['viol'].append((dict(sig0, what='upload-failed', exc=type(list(excs.values())[0]).__name__),
                             {'params': params, 'err': repr(list(excs.values())[0])[:160]}))
-    elif final not in (payloads[0], payloads[1]):
+    elif final not in [payloads[j] for j in writers]:
         out['viol'].append((dict(sig0, what='final-object-wrong'), {'params': params, 'len': None if final is None else len(final)}))
     if leftovers and not excs:
         out['viol'].append((dict(sig0, what='temporary-file-left-behind'), {'params': params, 'files': leftovers}))
@@ -659,10 +723,15 @@ def main():
         chk.sample({'part': 'b', 'case': [lcases[0][0], lcases[0][1], len(lcases[0][3])]})
         # (d)
         totd = explore.Agg()
-        for ops in (('upload_stream', 'upload_stream'), ('upload', 'upload_stream'), ('upload', 'upload')):
+        for ops in (('upload_stream', 'upload_stream'), ('upload', 'upload_stream'), ('upload', 'upload'),
+                    ('upload_stream', 'download_stream'), ('upload', 'download'), ('upload_stream', 'download'),
+                    ('upload', 'download_stream')):
             for same in (True, False):
                 for old in (False, True):
-                    params = {'ops': list(ops), 'same': same, 'old': old, 'len': 24, 'chunk': 16}
+                    if ops[1].startswith('download') and same:
+                        continue
+                    params = {'ops': list(ops), 'same': same, 'old': old, 'len': 24 if not ops[1].startswith('download') else 7,
+                              'chunk': 16}
                     agg, info = explore.explore(run_local_pair, params, 2 if t == 'quick' else 3)
                     if not info['deterministic_replay']:
                         chk.harness_error(f'replay of {params} not deterministic')
